@@ -1077,6 +1077,33 @@ func (m c04) respListCase(r *core.Rand, i int) {
 	c.Distinctf("resplist:%d", n)
 }
 
+// encapKeyBulk: several thousand honest name keys (one per seed), each encoded and decoded again: a check on the key
+// bytes that is wrong for one key in a few hundred shows only in bulk.
+func (m c04) encapKeyBulk(lo, hi int) {
+	c := m.c
+	for i := lo; i < hi; i++ {
+		seed := c.IdxRng("encap-bulk", int64(i)).Bytes(32)
+		c.Eval(1)
+		pan, pv, where := core.Guard(func() {
+			pk, err := type3.CreatePrivateEncapKeyFromSeed(seed)
+			if err != nil {
+				m.bad("EncapKey:create-error", err.Error(), map[string]any{"seed": core.Hex(seed)})
+				return
+			}
+			enc := pk.Public().Marshal()
+			k2, err := type3.UnmarshalEncapKey(clone(enc))
+			if err != nil || !bytes.Equal(k2.Marshal(), enc) {
+				m.bad("EncapKey:roundtrip", fmt.Sprintf("UnmarshalEncapKey(Marshal(k)) fails or re-encodes differently for an honest name key (err=%v)", err), map[string]any{"seed": core.Hex(seed), "encoding": core.Hex(enc)})
+				return
+			}
+			c.Class("honest_name_keys_in_bulk_roundtrip")
+		})
+		if pan {
+			m.bad("EncapKey:panic:"+where, "EncapKey codec panicked: "+pv, map[string]any{"seed": core.Hex(seed)})
+		}
+	}
+}
+
 func (m c04) encapKeyCase(r *core.Rand, i int) {
 	c := m.c
 	c.Eval(1)
@@ -1236,6 +1263,11 @@ func runC04(c *core.Ctx) {
 	for i := 0; i < c.Pick(20, 300); i++ {
 		if c.Next() {
 			m.encapKeyCase(c.CaseRng(), i)
+		}
+	}
+	for lo, total := 0, c.Pick(6000, 200000); lo < total; lo += 500 {
+		if c.Next() {
+			m.encapKeyBulk(lo, lo+500)
 		}
 	}
 	for i := 0; i < c.Pick(30, 400); i++ {
